@@ -6,6 +6,7 @@ import (
 	"crypto/sha256"
 	"errors"
 	"fmt"
+	"strings"
 	"sync"
 	"sync/atomic"
 
@@ -120,6 +121,14 @@ func (l *Log) Now() uint64 { l.mu.Lock(); defer l.mu.Unlock(); return l.seq }
 
 // ---------------------------------------------------------------- block utils
 
+// PanicBody: blocks whose body starts with it make the consumer's validator panic.
+const PanicBody = "PANIC"
+
+// ConsumerPanic is the value the fake consumer panics with (monitors tell it from a panic of the library).
+type ConsumerPanic struct{ What string }
+
+func (c ConsumerPanic) String() string { return "consumer panic: " + c.What }
+
 // BlockUtils is the consumer-side block factory / validator of one node.
 type BlockUtils struct {
 	Node string
@@ -158,6 +167,11 @@ func (u *BlockUtils) ValidateBlockProposal(ctx context.Context, h primitives.Blo
 	b := AsBlk(block)
 	if u.OnValidate != nil {
 		u.OnValidate(ctx, uint64(h), b)
+	}
+	if b != nil && strings.HasPrefix(b.Body, PanicBody) {
+		// a consumer whose validator crashes on an unexpected block shape: whatever the library makes of it, this is not an approval
+		u.Log.Add(Event{Node: u.Node, Kind: EvValidate, H: uint64(h), Hash: string(hash), Sender: string(id), Block: b, Ok: false, CtxErr: ctx.Err() != nil, Note: "validator panicked"})
+		panic(ConsumerPanic{What: "ValidateBlockProposal: unexpected block shape " + b.Body})
 	}
 	switch {
 	case b == nil && u.AcceptNilBlock:
